@@ -139,7 +139,7 @@ func init() {
 			"internal markers are Add-ed before they are sent and Done exactly once where consumed (C01.marker-*); every partition set of a produce response is routed to exactly one disposition and the two retriable case lists agree (C01.route); " +
 			"retryMessage re-queues or fails, never both or neither, with the budget test guarding the increment (C01.retry); shutdown waits before closing (C01.shutdown); the sync producer stores the expectation before submitting and answers each event once on its own channel (C01.sync). " +
 			"NOT covered: liveness of the retry loop across goroutines, value-dependent behaviour of markers whose budget is exhausted, the idempotent retryBatch hand-off to another broker worker.",
-		Rules: []func(*Ctx){c01Emit, c01Partial, c01Markers, c01Route, c01Retry, c01Shutdown, c01Sync, c01Loops},
+		Rules: []func(*Ctx){c01Emit, c01Partial, c01Markers, c01Route, c01ErrorSweep, c01Retry, c01Shutdown, c01Sync, c01Loops},
 	})
 }
 
@@ -223,7 +223,7 @@ func c01Emit(c *Ctx) {
 func c01Partial(c *Ctx) {
 	p := c.P
 	c.Doc("C01.partial", "in every loop over a []*ProducerMessage whose body hands the loop element to a disposer (returnError/retryMessage/…, computed as a fixed point), no path from the disposal leaves the loop: otherwise the rest of the batch never gets an outcome")
-	c.Floor("C01.partial", 3)
+	c.Floor("C01.partial", 2)
 	d := p.disposers()
 	if _, ok := d["asyncProducer.returnError"]; !ok {
 		c.Unresolved("C01.partial", "asyncProducer.returnError is not recognised as a disposer")
@@ -473,7 +473,7 @@ func c01Markers(c *Ctx) {
 func c01Route(c *Ctx) {
 	p := c.P
 	c.Doc("C01.route", "each callback handed to produceSet.eachPartition in handleSuccess/handleError disposes the partition's messages exactly once per path (returnSuccesses / returnErrors / retryMessages / go retryBatch / deferral to the retry pass); every switch on block.Err has a disposing default; the retriable case list of the first pass equals that of the second pass")
-	c.Floor("C01.route", 6)
+	c.Floor("C01.route", 5)
 	d := p.disposers()
 	bd := p.batchDisposers(d)
 	for _, n := range []string{"asyncProducer.returnErrors", "asyncProducer.returnSuccesses", "asyncProducer.retryMessages"} {
@@ -585,6 +585,75 @@ func c01Route(c *Ctx) {
 				"retriable case lists of both passes agree: "+strings.Join(p.kerrNames(firstRetriable), ","),
 				fmt.Sprintf("codes deferred by the first pass %v differ from those retried by the second pass %v: a code in the first list only is never disposed", p.kerrNames(firstRetriable), p.kerrNames(secondRetriable)), nil)
 		}
+	}
+}
+
+// C01.error-sweep: when a produce request fails at the transport level the broker worker gives up on
+// everything it holds: the failed request's set and the pending buffer.  Both must be swept, and the buffer
+// must not be replaced before it has been.
+func c01ErrorSweep(c *Ctx) {
+	p := c.P
+	rule := "C01.error-sweep"
+	c.Doc(rule, "handleError, after bp.closing is set: on every path both the failed request's set (parameter sent) and bp.buffer are swept by produceSet.eachPartition with a callback that disposes the partition's messages; bp.buffer is not replaced (rollOver / store to bp.buffer) before its sweep; in the encoding-error branch the sent set is swept")
+	c.Floor(rule, 3)
+	fn := c.NeedFn(rule, "brokerProducer.handleError")
+	if fn == nil {
+		return
+	}
+	d := p.disposers()
+	bd := p.batchDisposers(d)
+	disposes := func(cb *ssa.Function) bool {
+		if cb == nil {
+			return false
+		}
+		return hasItem(cb, func(it Item) bool {
+			cc, ok := callCommon(it)
+			if !ok {
+				return false
+			}
+			_, isD := bd[p.CalleeName(cc)]
+			return isD
+		})
+	}
+	reg := WholeFn(fn)
+	sentParam := ParamN(1)
+	isBuf := FieldLoad("brokerProducer.buffer")
+	var sentCalls, bufCalls []Item
+	for _, sw := range p.sweepsOf(fn) {
+		if !disposes(sw.cb) {
+			continue
+		}
+		if sentParam(sw.recv) {
+			sentCalls = append(sentCalls, sw.call)
+		}
+		if isBuf(sw.recv) {
+			bufCalls = append(bufCalls, sw.call)
+		}
+	}
+	oneOf := func(items []Item) Ev {
+		return func(it Item) bool {
+			for _, o := range items {
+				if IsItem(o)(it) {
+					return true
+				}
+			}
+			return false
+		}
+	}
+	closings := Info(fn).Find(StoreTo(nil, "brokerProducer.closing"))
+	if len(closings) == 0 {
+		c.Unresolved(rule, "store to bp.closing in handleError")
+		return
+	}
+	replace := Or(p.CallTo("brokerProducer.rollOver"), StoreTo(nil, "brokerProducer.buffer"))
+	for _, cl := range closings {
+		sub := reg.From(cl.After())
+		esc, path := sub.Escape(oneOf(sentCalls))
+		c.Check(len(sentCalls) > 0 && !esc, rule, fn, "sent-swept", cl.Instr(), "the failed request's messages are disposed on every path", "after a transport failure a path does not dispose the messages of the failed request: they get no outcome", path)
+		esc2, path2 := sub.Escape(oneOf(bufCalls))
+		c.Check(len(bufCalls) > 0 && !esc2, rule, fn, "buffer-swept", cl.Instr(), "the pending buffer's messages are disposed on every path", "after a transport failure a path does not dispose the messages waiting in the pending buffer: they get no outcome and Close never returns", path2)
+		it, path3 := sub.MustPrecede(oneOf(bufCalls), replace)
+		c.Check(it.IsZero(), rule, fn, "buffer-swept-before-replaced", it.Instr(), "bp.buffer is swept before it is replaced", "bp.buffer is replaced (rollOver) before it has been swept: the sweep then visits the fresh, empty buffer and the pending messages get no outcome", path3)
 	}
 }
 
